@@ -133,8 +133,15 @@ fn main() {
         let mut model = Model::spawn(&model_path).unwrap();
         let mr = normalise_model_reply(&model.ask(&model_request(&c.opts, &c.stream, c.nmarks, &c.paths)));
         let dis = obs.reply() != mr;
-        println!("{}", serde_json::to_string_pretty(&json!({"input": describe(&c), "impl": obs.reply(), "model": mr, "disagrees": dis})).unwrap());
-        std::process::exit(if dis { 1 } else { 0 });
+        let mut pf: Option<String> = None;
+        if obs.status == "ok" {
+            let req = model_request(&c.opts, &c.stream, c.nmarks, &c.paths);
+            let oreq = format!("oracle-stream {} {} {} {}", &req["filter ".len()..], enc(&obs.filtered), enc(&obs.commit_map), enc(&obs.ref_map));
+            let ans = model.ask(&oreq);
+            if ans != "ok" { pf = Some(ans); }
+        }
+        println!("{}", serde_json::to_string_pretty(&json!({"input": describe(&c), "impl": obs.reply(), "model": mr, "disagrees": dis, "property_failure": pf})).unwrap());
+        std::process::exit(if dis || pf.is_some() { 1 } else { 0 });
     }
     let mut parts = Vec::new();
     for mode in &modes {
@@ -143,10 +150,11 @@ fn main() {
         let total = cases.len();
         let queue = Arc::new(Mutex::new(cases.into_iter().collect::<std::collections::VecDeque<_>>()));
         let results: Arc<Mutex<Vec<(Case, String, String)>>> = Arc::new(Mutex::new(Vec::new()));
+        let oracle_fails: Arc<Mutex<Vec<(Case, String)>>> = Arc::new(Mutex::new(Vec::new()));
         let dist: Arc<Mutex<BTreeMap<String, u64>>> = Arc::new(Mutex::new(BTreeMap::new()));
         let mut handles = Vec::new();
         for t in 0..threads {
-            let (queue, results, dist, model_path) = (queue.clone(), results.clone(), dist.clone(), model_path.clone());
+            let (queue, results, dist, model_path, oracle_fails) = (queue.clone(), results.clone(), dist.clone(), model_path.clone(), oracle_fails.clone());
             handles.push(std::thread::spawn(move || {
                 let sc = Scratch::new(&format!("w{t}"));
                 let mut model = Model::spawn(&model_path).expect("model");
@@ -166,6 +174,15 @@ fn main() {
                         }
                     }
                     let r = obs.reply();
+                    // the property oracles, evaluated on the implementation's own outputs
+                    if obs.status == "ok" && c.kind == "generated" {
+                        let req = model_request(&c.opts, &c.stream, c.nmarks, &c.paths);
+                        let oreq = format!("oracle-stream {} {} {} {}", &req["filter ".len()..], enc(&obs.filtered), enc(&obs.commit_map), enc(&obs.ref_map));
+                        let ans = model.ask(&oreq);
+                        if ans != "ok" {
+                            oracle_fails.lock().unwrap().push((c.clone(), ans));
+                        }
+                    }
                     if r != mr {
                         results.lock().unwrap().push((c, r, mr));
                     }
@@ -179,9 +196,13 @@ fn main() {
         for (c, r, mr) in rs.iter().take(5) {
             dis.push(json!({"input": describe(c), "mode": mode, "case_id": c.id, "impl": r, "model": mr}));
         }
+        let mut ofs = oracle_fails.lock().unwrap();
+        ofs.sort_by_key(|x| x.0.stream.len());
+        let of_json: Vec<Value> = ofs.iter().take(8).map(|(c, a)| json!({"input": describe(c), "mode": mode, "case_id": c.id, "property_failure": a})).collect();
+        let of_count = ofs.len();
         let d = dist.lock().unwrap().clone();
         let nontrivial = d.get("runs-that-change-the-stream").cloned().unwrap_or(0) + d.get("status-err").cloned().unwrap_or(0);
-        eprintln!("[streamcorr] {mode}: {total} cases, {} disagreements, {:.1}s {:?}", rs.len(), t0.elapsed().as_secs_f64(), d);
+        eprintln!("[streamcorr] {mode}: {total} cases, {} disagreements, {} oracle failures, {:.1}s {:?}", rs.len(), of_count, t0.elapsed().as_secs_f64(), d);
         parts.push(json!({
             "suite": format!("stream-{mode}"), "evaluations": total, "distinct_nontrivial": nontrivial,
             "rule": match mode.as_str() {
@@ -189,7 +210,7 @@ fn main() {
                 "neutral" => "the same histories with no option and pruning disabled. Non-trivial: the stream is re-rendered differently (quoting, dropped blank lines, moved tag resets).",
                 _ => "every proper prefix (cut at every byte offset) of short generated streams, every single-line deletion/duplication/garbling, wrong data lengths: status and outputs vs the model. Non-trivial: the run fails.",
             },
-            "distribution": d, "disagreements": dis, "disagreement_count": rs.len(), "wall_s": t0.elapsed().as_secs_f64(),
+            "distribution": d, "oracle_failures": of_json, "oracle_failure_count": of_count, "disagreements": dis, "disagreement_count": rs.len(), "wall_s": t0.elapsed().as_secs_f64(),
             "samples": [],
         }));
     }
